@@ -256,6 +256,7 @@ impl Prop for C14 {
         touched.remove(&OwnedEntry::File(SENTINEL.to_string(), "la".to_string()));
         let mut untracked_silent = 0;
         for (n, entry) in touched.iter().enumerate() {
+            crate::tracelog::note(format!("C14 step {n}: edit and notify {entry:?}"));
             let deps_before = r.world.shadow_deps();
             // edit exactly this entry in the main source
             match entry {
